@@ -53,6 +53,9 @@ type Cfg struct {
 	WrapNotFound bool `json:"wrapNotFound,omitempty"`
 	// Prefix: key prefix of the badgerstore.
 	Prefix string `json:"prefix,omitempty"`
+	// PlainStrings: (mock store) the stored values are plain Go []string / map[string]string
+	// values, with strings that hold control characters and other unusual runes.
+	PlainStrings bool `json:"plainStrings,omitempty"`
 }
 
 // Mut is one mutation.
@@ -75,6 +78,16 @@ func (c Case) String() string { b, _ := json.Marshal(c); return string(b) }
 
 // storedValue materialises the JSON text as the Go value kept in the store.
 func storedValue(cfg Cfg, text string) interface{} {
+	if cfg.PlainStrings {
+		if cfg.Type == "collection" {
+			l := []string{}
+			_ = json.Unmarshal([]byte(text), &l)
+			return l
+		}
+		m := map[string]string{}
+		_ = json.Unmarshal([]byte(text), &m)
+		return m
+	}
 	if cfg.Store == "badger" {
 		var m map[string]interface{}
 		if cfg.Type == "collection" {
@@ -742,6 +755,31 @@ func genValue(typ string) *rapid.Generator[string] {
 	})
 }
 
+// genPlain generates all-string values for the PlainStrings configurations.
+func genPlain(typ string) *rapid.Generator[string] {
+	str := rapid.Map(rapid.SampledFrom([]string{"a", "b", "", "x y", "\x1b[31mred\x1b[0m", "\x00", "bell\x07", "\x0bvt", "del\x7f", "tag\U000e0001", "é\"q", "line\nbreak", "\u2028"}), func(s string) string {
+		b, _ := json.Marshal(s)
+		return string(b)
+	})
+	return rapid.Custom(func(t *rapid.T) string {
+		if typ == "collection" {
+			n := rapid.IntRange(0, 6).Draw(t, "len")
+			parts := make([]string, n)
+			for i := range parts {
+				parts[i] = str.Draw(t, "elem")
+			}
+			return "[" + strings.Join(parts, ",") + "]"
+		}
+		var parts []string
+		for _, k := range []string{"a", "b", "c", "name"} {
+			if rapid.Bool().Draw(t, "has-"+k) {
+				parts = append(parts, strconv.Quote(k)+":"+str.Draw(t, "val"))
+			}
+		}
+		return "{" + strings.Join(parts, ",") + "}"
+	})
+}
+
 func genCfg(storeKind string) *rapid.Generator[Cfg] {
 	return rapid.Custom(func(t *rapid.T) Cfg {
 		c := Cfg{Store: storeKind}
@@ -775,6 +813,9 @@ func genCfg(storeKind string) *rapid.Generator[Cfg] {
 		// (without a default, what a get of a missing record answers when the store wraps its
 		// not-found error is not specified: only generated together with a default)
 		c.WrapNotFound = wrapnf && c.Default != ""
+		if storeKind == "mock" && c.Trans != "custom" && c.Default == "" && rapid.IntRange(0, 4).Draw(t, "plain") == 0 {
+			c.PlainStrings = true
+		}
 		return c
 	})
 }
@@ -795,7 +836,11 @@ func genCase(storeKind string) *rapid.Generator[Case] {
 					}
 					fallthrough
 				default:
-					m.V = genValue(c.Cfg.Type).Draw(t, "v")
+					if c.Cfg.PlainStrings {
+						m.V = genPlain(c.Cfg.Type).Draw(t, "pv")
+					} else {
+						m.V = genValue(c.Cfg.Type).Draw(t, "v")
+					}
 				}
 				last[m.ID] = m.V
 			}
